@@ -36,10 +36,10 @@ theorem C15_enabled_iff (c : Cache.Ctor) (now : Int) :
   · cases c with
     | newOpts d i cb m =>
       cases d <;> cases i <;> cases cb <;> cases m <;>
-        simp [Cache.construct, Cache.newXsyncMap, Proofs.LeafCache.configDefault_spec, Gen.DefaultConfig_, Gen.DefaultCleanupInterval] <;>
+        simp [Cache.construct, Cache.newXsyncMap, Gen.newXsyncMap_dflt, Gen.newXsyncMap_hasCb, Gen.newXsyncMap_janitor, Gen.NewDefault_cfg, Gen.New_cfg, Gen.WithDefaultExpiration, Gen.WithCleanupInterval, Gen.WithEvictedCallback, Gen.WithMinCapacity, List.foldl, Proofs.LeafCache.configDefault_spec, Gen.DefaultConfig_, Gen.DefaultCleanupInterval] <;>
         omega
     | newDefault d i cb =>
-      simp [Cache.construct, Cache.newXsyncMap, Proofs.LeafCache.configDefault_spec]
+      simp [Cache.construct, Cache.newXsyncMap, Gen.newXsyncMap_dflt, Gen.newXsyncMap_hasCb, Gen.newXsyncMap_janitor, Gen.NewDefault_cfg, Gen.New_cfg, Gen.WithDefaultExpiration, Gen.WithCleanupInterval, Gen.WithEvictedCallback, Gen.WithMinCapacity, List.foldl, Proofs.LeafCache.configDefault_spec]
       omega
   · rw [Proofs.Twin.construct_eq]
 
